@@ -33,14 +33,15 @@ PROPS["C19"] = dict(
 )
 
 PROPS["C18"] = dict(
-    units=[],
+    units=["revmaps"],
     kani_quick=["c18_attr_byte_roundtrip", "c18_attr_tuple_roundtrip", "c18_cp437_table_injective",
                 "c18_cp437_ascii_identity", "c18_atascii_table_injective_128", "c18_atascii_ascii_identity",
                 "c18_petscii_pairs_distinct", "c18_petscii_alnum_closed", "c18_viewdata_alnum_identity",
                 "c18_viewdata_alnum_unique", "c18_mode7_alnum_identity", "c18_mode7_alnum_unique"],
     kani_bounded={},
     trusted_base=COMMON_TRUST[:1] + [
-        "std HashMap insert/get/collect semantics for the lazily built reverse maps (UNICODE_TO_CP437, UNICODE_TO_ATARI, "
+        "unit revmaps proves the real lazy_static initialiser blocks of UNICODE_TO_CP437 and UNICODE_TO_ATARI against vstd's HashMap specification (every table entry maps back to its index); for the remaining maps: "
+        "std HashMap insert/get/collect semantics for the lazily built reverse maps ("
         "UNICODE_TO_PETSCII, PETSCII_TO_UNICODE, UNICODE_TO_VIEWDATA): from(to(c)) == c is derived from the table "
         "facts proved here (injectivity / identity on alphanumerics / last-index-wins) plus those semantics; "
         "Kani cannot execute a std HashMap (measured), so this step is assumed",
